@@ -29,7 +29,7 @@ Definition annotation (flags : N) (comment : option str) (d : nat) : str :=
 (* the opening line of a section *)
 Definition sec_header (name : str) (flags : N) (s : cfg) : str :=
   if has flags CFGF_TITLE
-  then cstr name ++ M " """ ++ (match c_title s with Some t => cstr t | None => M "(null)" end) ++ M """ {" ++ [nl]
+  then cstr name ++ M " " ++ quoted (c_title s) ++ M " {" ++ [nl]
   else cstr name ++ M " {" ++ [nl].
 
 (* what one value of a section option contributes *)
